@@ -186,7 +186,7 @@ def main(which):
         graphs = [("MC_Module.cfg", 2, None), ("MC_Chans.cfg", 3, 40 if quick else 600),
                   ("MC_Inputs.cfg", 3, None), ("MC_Recs.cfg", 3, None)]
     else:
-        graphs = [("MC_Params.cfg", 3, 30 if quick else 800)]
+        graphs = [("MC_Params.cfg", 3, 30 if quick else 400)]
     states = trans = 0
     tot = collections.Counter()
     samples = []
